@@ -27,7 +27,8 @@ THEOREMS = [
     "PM.C09Flat.PInv.get", "PM.C09Flat.flat_perm_invariant", "PM.C09Flat.flat_error_agrees", "PM.C09Flat.handed_back_is_forgotten",
 ]
 # theorems about the decisions of parse.py *translated from the current source* (extractor E12, lean/Eliot/Generated/ParseRule.lean)
-RULE_THEOREMS = ["PM.C09Rule.completeNow_is_translated", "PM.C09Rule.visit_is_translated", "PM.C09Rule.shapes"]
+RULE_THEOREMS = ["PM.C09Rule.completeNow_is_translated", "PM.C09Rule.visit_is_translated", "PM.C09Rule.shapes",
+                 "PM.C09Rule.add_single_message_task", "PM.C09Rule.add_action_message"]
 SKELETON_TARGETS = {"PM.C09Rule.translated_parse_decisions (E12: the `if` test of Task._insert_action, its loop, the order of effects, "
                     "_ensure_node_parents and the dispatch of Task.add, translated from eliot/parse.py)":
                     ("Eliot.Properties.C09Rule", "Eliot/Audit/C09Rule.lean", RULE_THEOREMS)}
